@@ -68,7 +68,7 @@ func (s *metaChoice) RequiresConsistency() bool { return s.cons }
 // `after` (same partition count) and the client refreshes THAT topic; then up to three messages are produced through a
 // partitioner that picks index ch of whatever list it is offered.  The answer per message is the pm line of the model
 // with all = 0..np-1 and writable = partitions that have a leader now (the simulated cluster's truth).
-func doE2E(cons bool, np int, before, after []bool, chs []int) []string {
+func doE2E(cons bool, np int, before, after []bool, chs []int, retryMax int) []string {
 	sim := sarama.VerifNewSim(2, map[string]int32{"t": int32(np)})
 	defer sim.Close()
 	for p := 0; p < np; p++ {
@@ -79,7 +79,7 @@ func doE2E(cons bool, np int, before, after []bool, chs []int) []string {
 	cfg := sarama.NewConfig()
 	cfg.Version = sarama.V2_0_0_0
 	cfg.Producer.Return.Successes = true
-	cfg.Producer.Retry.Max = 0
+	cfg.Producer.Retry.Max = retryMax // a message that cannot be partitioned fails at once, whatever the retry budget
 	cfg.Producer.Retry.Backoff = time.Millisecond
 	cfg.Metadata.Retry.Max = 0
 	cfg.Metadata.Retry.Backoff = time.Millisecond
@@ -254,9 +254,10 @@ func emitE2E(rnd *hlib.Rand) {
 			chs[i] = -1
 		}
 	}
-	desc := fmt.Sprintf("e2e cons=%v np=%d before=%v after=%v choices=%v", cons, np, before, after, chs)
+	retryMax := rnd.Pick(0, 2, 3)
+	desc := fmt.Sprintf("e2e cons=%v np=%d before=%v after=%v choices=%v retryMax=%d", cons, np, before, after, chs, retryMax)
 	var outs []string
-	run.Safe(desc, func() string { outs = doE2E(cons, np, before, after, chs); return "" })
+	run.Safe(desc, func() string { outs = doE2E(cons, np, before, after, chs, retryMax); return "" })
 	b := "0"
 	if cons {
 		b = "1"
